@@ -98,7 +98,8 @@ for rel in sorted(theirs_files):
         continue
     if m is None or (b is not None and m == b):
         os.makedirs(os.path.dirname(mp) or V, exist_ok=True)
-        shutil.copy2(os.path.join(W, rel), mp)
+        shutil.copyfile(os.path.join(W, rel), mp)   # fresh mtime: cargo and lake must see the file as changed
+        shutil.copymode(os.path.join(W, rel), mp)
         print("copied   ", rel)
     elif re.match(r"tools/translate[a-z0-9_]*\.py$", rel) and b is not None:
         merged, notes = merge_py_functions(rel, b.decode(), t.decode(), m.decode())
